@@ -135,6 +135,10 @@ RECURSIVE SubElem(_, _, _)
 SubElem(banc, x, y) ==
   IF y.k = "any" THEN SubElem(banc, x, [k |-> "cls", c |-> 1])
   ELSE IF x.k = "any" THEN SubElem(banc, [k |-> "cls", c |-> 1], y)
+  \* [k |-> "metaof", cs] : a metaclass used as an annotation; the classes cs are its instances.  It is
+  \* below object only, and a passed class satisfies it iff it is one of its instances
+  ELSE IF x.k = "metaof" THEN (y.k = "cls" /\ y.c = 1) \/ x = y
+  ELSE IF y.k = "metaof" THEN x.k = "cls" /\ x.c \in {y.cs[j] : j \in DOMAIN y.cs}
   ELSE IF x.k = "cls" /\ y.k = "cls" THEN y.c \in banc[x.c]
   ELSE IF x.k = "gen" /\ y.k = "cls" THEN y.c \in banc[x.o]
   ELSE IF x.k = "gen" /\ y.k = "gen" THEN
